@@ -594,6 +594,8 @@ def _distribute(ctx, model):
                "admits the wrong class")
     ctx.floor("DistributeMapper handlers", n_handlers, 4)
     _collector_accepts_distributor_terms(ctx, model, dm)
+    _products_redistributed(ctx, model, dm)
+    _power_shape_cases(ctx, model, dm)
     # map_power multiplies a power of a sum out by repeating the base
     # `exponent` times: for exponent <= 0 the repetition is empty, which is
     # the constant 1 (wrong for negative exponents) and not a Product at all
@@ -636,6 +638,208 @@ def _distribute(ctx, model):
            "exponent the repetition is empty, flattened_product gives the "
            "constant 1 and map_product fails on it (expand((x + 1)**0) raises "
            "AttributeError)")
+
+
+def _power_shape_cases(ctx, model, dm):
+    """map_power, by truth table over the class of the *mapped* base and the
+    kind of exponent: with a positive integer exponent (the polynomial
+    fragment), a power whose mapped base is a product, a sum or a positive
+    integer power must not be kept as it is -- the first and third leave like terms unmerged
+    ((x*y)**2 + x**2*y**2, (x**2)**3 + x**6), the second leaves a sum beneath
+    an integer power."""
+    import itertools
+    from ..rules import handler_summaries, UnknownAtom, bool_eval
+    mp = model.lookup(dm, "map_power")
+    MB = ("rec", ("field", "base"), True, ())
+    EXPO = ("field", "exponent")
+    INNER = ("attr", MB, "exponent")
+
+    def atom_of(v):
+        if not isinstance(v, tuple) or not v:
+            return None
+        if v[0] == "call" and v[1] == "isinstance" and len(v[2]) == 2 and \
+                v[2][1][0] == "global":
+            subj, cls = v[2][0], v[2][1][1]
+            if subj == MB and cls in ("Product", "Sum", "Power"):
+                return cls
+            if subj == EXPO and cls == "int":
+                return "I"
+            if subj == INNER and cls == "int":
+                return "J"
+        if v[0] == "compare" and len(v[1]) == 1 and v[2] in (EXPO, INNER) and \
+                v[3][0][0] == "const" and isinstance(v[3][0][1], int):
+            op, k = v[1][0], v[3][0][1]
+            a = "G" if v[2] == EXPO else "H"
+            if (op, k) in (("Gt", 0), ("GtE", 1)):
+                return a
+            if (op, k) in (("LtE", 0), ("Lt", 1)):
+                return (a, True)
+        return None
+
+    def keeps(rv):
+        if not isinstance(rv, tuple):
+            return False
+        if rv[0] == "call" and rv[1].endswith(".map_power") and \
+                rv[1] != "self.map_power" and NODE in rv[2]:
+            return True        # the inherited handler rebuilds Power(rec(base), ..)
+        if rv[0] == "call" and rv[1] == "Power" and rv[2] and rv[2][0] == MB:
+            return True
+        if rv[0] == "binop" and rv[1] == "Pow" and rv[2] == MB:
+            return True
+        return rv == NODE
+
+    pss = [ps for ps in handler_summaries(model, model.nodes.get("Power"),
+                                          mp.node, loop_mode="1")]
+    atoms = ["Product", "Sum", "Power", "I", "G", "J", "H"]
+    kept = {"Product": [], "Sum": [], "Power": []}
+    n_asg = 0
+    try:
+        for bits in itertools.product((False, True), repeat=len(atoms)):
+            asg = dict(zip(atoms, bits))
+            if asg["Product"] + asg["Sum"] + asg["Power"] > 1:
+                continue
+            if (asg["J"] or asg["H"]) and not asg["Power"]:
+                continue
+            if (asg["G"] and not asg["I"]) or (asg["H"] and not asg["J"]):
+                continue
+            sel = [ps for ps in pss
+                   if all(bool_eval(c, atom_of, asg) == pol
+                          for _, pol, c in ps.conds if isinstance(c, tuple))]
+            if len(sel) != 1:
+                raise UnknownAtom(f"assignment {asg} selects {len(sel)} paths")
+            n_asg += 1
+            ps = sel[0]
+            if ps.term != "return" or not keeps(ps.retval):
+                continue
+            # the polynomial fragment: positive integer exponents
+            if not asg["G"]:
+                continue
+            if asg["Product"]:
+                kept["Product"].append(asg)
+            if asg["Sum"]:
+                kept["Sum"].append(asg)
+            if asg["Power"] and asg["H"]:
+                kept["Power"].append(asg)
+    except UnknownAtom as e:
+        raise AnalysisError("DistributeMapper.map_power: a branch condition is "
+                            f"not one of the shape tests this rule reads: {e}")
+    ctx.floor("DistributeMapper.map_power shape assignments", n_asg, 12)
+    # like-term merging could also be done on the collector's side: if
+    # split_term looks at the class of a power's base, this rule cannot judge
+    tc = model.cls("pymbolic.mapper.collector:TermCollector")
+    st = tc.members.get("split_term")
+    looks = st is not None and any(
+        isinstance(c, ast.Call) and isinstance(c.func, ast.Name)
+        and c.func.id == "isinstance" and c.args
+        and isinstance(c.args[0], ast.Attribute) and c.args[0].attr == "base"
+        for c in ast.walk(st.node))
+    if looks and (kept["Product"] or kept["Power"]):
+        raise AnalysisError("TermCollector.split_term inspects the class of a "
+                            "power's base: powers of products/powers may be "
+                            "merged there, which this rule does not read")
+    msgs = {
+        "Product": "a power of a product is kept as it is: (x*y)**2 + x**2*y**2 "
+                   "keeps two unlike-looking like terms",
+        "Sum": "a positive integer power of a sum is kept as it is: a sum stays "
+               "beneath an integer power",
+        "Power": "an integer power of an integer power is kept as it is: "
+                 "expand((x**2)**3 + x**6) keeps (x**2)**3 and x**6 apart "
+                 "instead of merging the like terms",
+    }
+    for k in ("Product", "Sum", "Power"):
+        ctx.ob(f"P/DistributeMapper/map_power/mapped-base-{k}-rewritten",
+               not kept[k], where(mp),
+               f"a power whose mapped base is a {k} is multiplied out / merged"
+               if not kept[k] else "DistributeMapper.map_power: " + msgs[k])
+
+
+def _products_redistributed(ctx, model, dm):
+    """The recursive multiplying-out helper inside map_product returns either a
+    product without sums or a (collected) sum.  So whatever it multiplies one of
+    its own results with must go through the helper again: a product built
+    around a helper result and returned as it is keeps a sum beneath a
+    product."""
+    mp = model.lookup(dm, "map_product")
+    helpers = [f for f in ast.walk(mp.node)
+               if isinstance(f, ast.FunctionDef) and f is not mp.node
+               and any(isinstance(c, ast.Call) and isinstance(c.func, ast.Name)
+                       and c.func.id == f.name for c in ast.walk(f))]
+    if len(helpers) != 1:
+        raise AnalysisError("DistributeMapper.map_product: expected exactly one "
+                            f"recursive multiplying-out helper, found "
+                            f"{[f.name for f in helpers]}")
+    fn = helpers[0]
+    me = fn.name
+
+    def is_self(v):
+        return isinstance(v, tuple) and len(v) > 2 and v[0] == "call" and v[1] == me
+
+    def operands(v):
+        """operands of a product construction, or None"""
+        if not isinstance(v, tuple) or not v:
+            return None
+        if v[0] == "binop" and v[1] == "Mult":
+            return [v[2], v[3]]
+        if v[0] == "call" and (v[1].split(".")[-1] in ("flattened_product",
+                                                      "Product")):
+            out = []
+            for a in v[2]:
+                if isinstance(a, tuple) and a and a[0] == "lit" and \
+                        a[1] in ("list", "tuple"):
+                    out.extend(x[1] if isinstance(x, tuple) and x
+                               and x[0] == "star" else x for x in a[2])
+                else:
+                    out.append(a)
+            return out
+        return None
+
+    bad = []
+    n_products = 0
+
+    def walk(v, protected, sums):
+        nonlocal n_products
+        if not isinstance(v, tuple):
+            return
+        ops = operands(v)
+        if ops is not None:
+            n_products += 1
+            if not protected and any(is_self(o) or o in sums for o in ops):
+                bad.append(v)
+            # only flattened_product looks into nested products; `a * (b * s)`
+            # and Product((a, b * s)) keep the inner product as one factor, and
+            # the helper does not look for sums inside it
+            flattens = v[0] == "call" and v[1].split(".")[-1] == "flattened_product"
+            for o in ops:
+                walk(o, protected and flattens, sums)
+            return
+        if is_self(v):
+            for a in v[2]:
+                walk(a, True, sums)
+            return
+        for x in v:
+            if isinstance(x, tuple):
+                walk(x, False, sums)
+
+    n_paths = 0
+    for ps in summarize(fn, plain=True, loop_mode="1"):
+        if ps.term != "return" or ps.retval is None:
+            continue
+        n_paths += 1
+        sums = {c[2][0] for _, pol, c in ps.conds
+                if pol and isinstance(c, tuple) and c[0] == "call"
+                and c[1] == "isinstance" and len(c[2]) == 2
+                and c[2][1] == ("global", "Sum")}
+        walk(ps.retval, False, sums)
+    ctx.floor("DistributeMapper.map_product helper paths", n_paths, 3)
+    ctx.floor("DistributeMapper.map_product product constructions", n_products, 2)
+    ctx.ob("P/DistributeMapper/map_product/products-of-results-redistributed",
+           not bad, dm.module.loc(fn),
+           "every product built around a multiplied-out result is multiplied "
+           "out again" if not bad else
+           f"DistributeMapper.map_product: {me}() multiplies one of its own "
+           "results (which may be a sum) with other factors and returns that "
+           "product as it is: a sum stays beneath a product (e.g. "
+           "expand(y*(x+y)*(x-2)) = y*(...) + y*(...))")
 
 
 def _collector_accepts_distributor_terms(ctx, model, dm):
